@@ -3,6 +3,7 @@ PROP = {
     "theorems": [
         "IdenaModel.Cert.cert_ok_iff",
         "IdenaModel.Cert.cert_sound",
+        "IdenaModel.Cert.block_cert_sound",
         "IdenaModel.Cert.cert_ok_congr",
         "IdenaModel.Cert.dup_forged_outsider_dont_count",
         "IdenaModel.Cert.cert_complete",
@@ -17,6 +18,10 @@ PROP = {
         "IdenaModel.Cert.committee_exists",
         "IdenaModel.Cert.validate_never_panics",
         "IdenaModel.Cert.addVote_store_round",
+        "IdenaModel.Cert.load_sorted_strictDesc",
+        "IdenaModel.Cert.countVotes_panic_only_if",
+        "IdenaModel.Cert.required_nonneg_of_approved",
+        "IdenaModel.Cert.countVotes_never_panics",
     ],
     "channels": [{"name": "C07", "exe": "oracle_c07"}],
     "trusted_base": [
